@@ -35,7 +35,48 @@ NOIFF = dict(bin_bool=('and', 'or', 'implies'), bare_operand=False)
 
 @st.composite
 def io_assign(draw, vs):
-    return {v: draw(st.sampled_from(['input', 'output', 'output', None])) for v in vs}
+    io = {v: draw(st.sampled_from(['input', 'output', 'output', None])) for v in vs}
+    if len(vs) >= 2 and draw(st.booleans()):
+        # make sure both classes are present
+        io[vs[0]] = 'input'
+        io[vs[1]] = draw(st.sampled_from(['output', None]))
+    return io
+
+
+@st.composite
+def mixed_predicate(draw, vs):
+    """A predicate whose two sides are arithmetic over different variables (in_vars/out_vars must be propagated
+    through every arithmetic node, from either operand)."""
+    def term():
+        a = ('var', draw(st.sampled_from(vs)))
+        b = ('var', draw(st.sampled_from(vs)))
+        k = draw(st.integers(0, 7))
+        if k == 0:
+            return a
+        if k == 1:
+            return ('bin', draw(st.sampled_from(['+', '-', '*'])), a, b)
+        if k == 2:
+            return ('bin', draw(st.sampled_from(['+', '-', '*'])), ('const', draw(st.sampled_from([1.0, 2.0, 0.5]))), b)
+        if k == 3:
+            return ('bin', draw(st.sampled_from(['+', '-', '*'])), a, ('const', draw(st.sampled_from([1.0, 2.0, 0.5]))))
+        if k == 4:
+            return ('un', draw(st.sampled_from(['abs', 'neg'])), ('bin', '-', a, b))
+        if k == 5:
+            return ('bin', '/', a, ('bin', '+', ('un', 'abs', b), ('const', 1.0)))
+        if k == 6:
+            return ('bin', 'pow', ('bin', '+', ('un', 'abs', a), ('const', 1.0)), ('const', 2.0))
+        return ('const', draw(st.sampled_from([0.0, 1.0, 2.5])))
+    return ('pred', draw(st.sampled_from(F.PREDS)), term(), term())
+
+
+def graft(f, pred, path):
+    """Replace the predicate reached by following `path` (as far as possible) by `pred`."""
+    if f[0] == 'pred' or not F.children(f):
+        return pred
+    kids = list(F.children(f))
+    i = (path[0] if path else 0) % len(kids)
+    kids[i] = graft(kids[i], pred, path[1:])
+    return F.rebuild(f, kids)
 
 
 @st.composite
@@ -44,6 +85,8 @@ def dt_cases6(draw, tier, kind):
     if tier == 'thorough':
         p = p.copy(max_depth=4)
     f, vs = draw(F.formulas(p))
+    if draw(st.booleans()):
+        f = graft(f, draw(mixed_predicate(vs)), draw(st.lists(st.integers(0, 1), max_size=4)))
     n = draw(F.trace_lengths(8))
     return {'kind': kind, 'formula': f, 'vars': vs, 'trace': draw(F.traces(vs, n=n)),
             'sem': draw(st.sampled_from(SEMS)), 'io': draw(io_assign(vs))}
@@ -53,6 +96,8 @@ def dt_cases6(draw, tier, kind):
 def ct_cases6(draw, tier, kind):
     p = (DENSE if kind == 'ct_off' else DENSE_PAST).copy(nvars=3, temporal_in_arith=False, **NOIFF)
     c = draw(ct_cases(p, tier, max_samples=6))
+    if draw(st.booleans()):
+        c['formula'] = graft(from_json(c['formula']), draw(mixed_predicate(c['vars'])), draw(st.lists(st.integers(0, 1), max_size=4)))
     c['kind'] = kind
     c['sem'] = draw(st.sampled_from(SEMS))
     c['io'] = draw(io_assign(c['vars']))
